@@ -158,7 +158,7 @@ def main(tier):
     if lvl == "deep":
         js = common.widen(js, by=(1, 2))
     base = list(js)
-    js += common.staged(base, stride=4 if tier == "quick" else 1, kinds=("solve", "init"))
+    js += common.staged(base, stride=4 if tier == "quick" else 1, kinds=("solve", "init", "older"))
     js += common.early(base, stride=5 if tier == "quick" else 2)
     for j in js:
         # the busy bounds of every assignment are explored too: the interval each worker is held
